@@ -72,7 +72,7 @@ PROPS = {
         "assumptions": ["the chunking law of the Go reader is established by correspondence (random chunkings), the prefix and limit laws by theorem"],
     },
     "C01": {
-        "modules": ["Cose.Props.C01", "Cose.Props.C01Enc", "Cose.Props.CwtEndToEnd"], "families": ["msg:C01", "msg:C06", "conv"], "spec_ops": ["conv.keyset", "conv.ed25519", "conv.ecdsa", "conv.ecdh", "conv.gen"],
+        "modules": ["Cose.Props.C01", "Cose.Props.C01Enc", "Cose.Props.C01Sign", "Cose.Props.CwtEndToEnd"], "families": ["msg:C01", "msg:C06", "conv"], "spec_ops": ["conv.keyset", "conv.ed25519", "conv.ecdsa", "conv.ecdh", "conv.gen"],
         "n_quick": 500, "n_thorough": 60000,
         "rule": "6 kinds x 24 algorithms x payload {nil, empty, raw of every CBOR length class, pre-encoded CBOR, typed map} x header maps (int/text labels; int, bstr, tstr, bool, array, nested-map values) "
                 "x external data {nil, empty, random} x 1-3 signers / 1-3 recipients incl. one nesting level; each produced message consumed tagged, untagged and CWT-tagged; "
@@ -81,7 +81,7 @@ PROPS = {
         "assumptions": ["signature correctness (SigCorrect) for ECDSA / Ed25519: assumed in the theorem, cross-checked by the Lean EC reference in the run"],
     },
     "C02": {
-        "modules": ["Cose.Props.C02", "Cose.Props.History"], "families": ["msg:C02", "conv"], "spec_ops": ["conv.keyset", "conv.ed25519", "conv.ecdsa", "conv.ecdh", "conv.gen"],
+        "modules": ["Cose.Props.C02", "Cose.Props.History", "Cose.Props.C01Sign"], "families": ["msg:C02", "conv"], "spec_ops": ["conv.keyset", "conv.ed25519", "conv.ecdsa", "conv.ecdh", "conv.gen"],
         "n_quick": 400, "n_thorough": 50000,
         "rule": "valid Sign1/Sign/Mac0/Mac messages, then per message 4 alterations: bit flip at a random position, truncation, trailing byte, byte replacement, other external data, "
                 "other key, splice of one top-level member from an independently produced message, change of kind (tag/prefix swap); model (with Lean HMAC/CBC-MAC/ECDSA/Ed25519) predicts accept/reject exactly",
